@@ -15,6 +15,8 @@ import (
 	"encoding/json"
 	"fmt"
 	"os"
+	"path/filepath"
+	"runtime"
 	"sort"
 	"strings"
 	"time"
@@ -76,12 +78,25 @@ func main() {
 	kit.Silence()
 	r := vh.NewRun("C18", "exploration")
 
+	// witnesses of an earlier run with the same tier and seed would otherwise linger next to the new ones
+	if old, _ := filepath.Glob(filepath.Join(r.OutDir, "violations", fmt.Sprintf("%s-seed%d-*.json", r.Tier, r.Seed))); len(old) > 0 {
+		for _, f := range old {
+			os.Remove(f)
+		}
+	}
 	t0 := time.Now()
 	phase := func(name string) {
 		fmt.Fprintf(os.Stderr, "[c18] %-28s at %6.1fs\n", name, time.Since(t0).Seconds())
 		r.Max("phase_ms_"+name, time.Since(t0).Milliseconds())
 	}
-	pool := startOracle(r, 8)
+	nProc := runtime.NumCPU() - 2
+	if nProc > 14 {
+		nProc = 14
+	}
+	if nProc < 2 {
+		nProc = 2
+	}
+	pool := startOracle(r, nProc)
 	defer pool.Close()
 	pool.selfTest(r)
 	ev := &evaluator{r: r, oracle: pool, cache: map[string]*evalResult{}}
@@ -436,6 +451,8 @@ func main() {
 		}
 	}
 	phase("binding-done")
+	r.Count("oracle_answers_from_cache", pool.hits.Load())
+	r.Count("oracle_processes", int64(nProc))
 	r.Count("bind_ok", int64(bindOK))
 	r.Count("toolslist_ok", int64(listOK))
 	r.Count("corpus_types", int64(len(corpus.Types)))
